@@ -180,6 +180,10 @@ class _TS(Rule):
                 if spec.checkpoint(ev):
                     self.records.append((ev, rs, t['loc'], getattr(self, 'cur_outcome', '?')))
                 rs = spec.delta(rs, ev)
+            if new_holder is None:
+                # consumed by a foreign function whose result does not hold it any more (mem::drop, a closing helper):
+                # for the resource this is the end of its life, exactly like going out of scope
+                self.drops.append((rs, t['loc'], getattr(self, 'cur_outcome', '?')))
             return (new_holder, rs)
         ev = spec.event(b, t, '<unknown-foreign>:' + q, argi)
         if ev:
